@@ -68,7 +68,8 @@ def chain_program(rng, depth, fault_kind):
     """tokens of a call chain f0 <- f1 <- … <- top; returns toks, names, index ranges of the fault and of each call expr."""
     toks = []
     marks = {}
-    names = []
+    names = []         # one entry per FRAME, innermost first
+    lvl_names = []     # one entry per level
     kinds = []
     if fault_kind == "member":
         fault = T("o") + [(".", {"tight"}), ("a", {"tight"}), (".", {"tight"}), ("b", set())]
@@ -78,43 +79,68 @@ def chain_program(rng, depth, fault_kind):
         fault = T("o") + [("(", {"tight"})] + T(")")
     else:  # nullread
         fault = T("(", "void", "0", ")") + [(".", {"tight"})] + T("q")
+    reps = {}          # level -> number of recursive activations above the innermost one (kind "rec")
     for lvl in range(depth + 1):
-        kind = rng.choice(["fn", "fn", "arrow", "method", "objmethod"]) if lvl else rng.choice(["fn", "method"])
+        kind = rng.choice(["fn", "fn", "arrow", "method", "objmethod", "rec"]) if lvl else rng.choice(["fn", "method", "rec"])
         kinds.append(kind)
         body_expr = fault if lvl == 0 else None
         if lvl > 0:
-            callee_kind, callee = kinds[lvl - 1], names[lvl - 1]
+            callee_kind, callee = kinds[lvl - 1], lvl_names[lvl - 1]
             if callee_kind in ("fn", "arrow"):
                 body_expr = T("f%d" % (lvl - 1)) + [("(", {"tight"})] + T("o", ")")
+            elif callee_kind == "rec":
+                body_expr = T("r%d" % (lvl - 1)) + [("(", {"tight"})] + T("o", ",", str(reps[lvl - 1]), ")")
             elif callee_kind == "method":
                 body_expr = T("new", "C%d" % (lvl - 1), "(", ")") + [(".", {"tight"}), ("m%d" % (lvl - 1), {"tight"}), ("(", {"tight"})] + T("o", ")")
             else:
                 body_expr = T("O%d" % (lvl - 1)) + [(".", {"tight"}), ("k%d" % (lvl - 1), {"tight"}), ("(", {"tight"})] + T("o", ")")
         pad = T("const", "z%d" % lvl, "=", str(lvl), ";") if rng.random() < 0.5 else []
+        if kind == "rec":
+            # direct recursion: the activations of ONE function are stopped at different calls - the innermost at the
+            # fault / the call of the next level (after `:`), the ones above it at the recursive call (after `?`)
+            k = rng.randint(1, 3)
+            reps[lvl] = k
+            lvl_names.append("r%d" % lvl)
+            head = T("function", "r%d" % lvl, "(", "o", ":", "any", ",", "n", ":", "number", ")", "{") + pad + [("return", {"nonl"})] + T("n", ">", "0", "?")
+            site_a = T("r%d" % lvl) + [("(", {"tight"})] + T("o", ",", "n", "-", "1", ")")
+            toks += head
+            a0 = len(toks)
+            toks += site_a + T(":")
+            b0 = len(toks)
+            toks += body_expr + T(";", "}")
+            marks[len(names)] = (b0, b0 + len(body_expr))
+            names.append("r%d" % lvl)
+            for _ in range(k):
+                marks[len(names)] = (a0, a0 + len(site_a))
+                names.append("r%d" % lvl)
+            continue
         if kind == "fn":
-            names.append("f%d" % lvl)
+            lvl_names.append("f%d" % lvl)
             head = T("function", "f%d" % lvl, "(", "o", ":", "any", ")", "{") + pad + [("return", {"nonl"})]
             tail = T(";", "}")
         elif kind == "arrow":
-            names.append("f%d" % lvl)
+            lvl_names.append("f%d" % lvl)
             head = T("const", "f%d" % lvl, "=", "(", "o", ":", "any", ")") + [("=>", {"tight_before"})] + T("{") + pad + [("return", {"nonl"})]
             tail = T(";", "}", ";")
         elif kind == "method":
-            names.append("m%d" % lvl)
+            lvl_names.append("m%d" % lvl)
             head = T("class", "C%d" % lvl, "{", "m%d" % lvl, "(", "o", ":", "any", ")", "{") + pad + [("return", {"nonl"})]
             tail = T(";", "}", "}")
         else:
-            names.append("k%d" % lvl)
+            lvl_names.append("k%d" % lvl)
             head = T("const", "O%d" % lvl, "=", "{", "k%d" % lvl, "(", "o", ":", "any", ")", "{") + pad + [("return", {"nonl"})]
             tail = T(";", "}", "}", ";")
         toks += head
-        marks[lvl] = (len(toks), len(toks) + len(body_expr))
+        marks[len(names)] = (len(toks), len(toks) + len(body_expr))
+        names.append(lvl_names[-1])
         toks += body_expr + tail
     # top-level call
     lvl = depth
-    ck, cn = kinds[lvl], names[lvl]
+    ck, cn = kinds[lvl], lvl_names[lvl]
     if ck in ("fn", "arrow"):
         call = T("f%d" % lvl) + [("(", {"tight"})] + T("{", "}", ")")
+    elif ck == "rec":
+        call = T("r%d" % lvl) + [("(", {"tight"})] + T("{", "}", ",", str(reps[lvl]), ")")
     elif ck == "method":
         call = T("new", "C%d" % lvl, "(", ")") + [(".", {"tight"}), ("m%d" % lvl, {"tight"}), ("(", {"tight"})] + T("{", "}", ")")
     else:
